@@ -194,9 +194,9 @@ def run_prop(case):
         r = P(a, d1)
         e = nrm(vals(r)) / na
         met["energy_ratio_minus_1"] = e - 1
-        if e > 1 + 1e-12 * TOLX:
+        if not (e <= 1 + 1e-12 * TOLX):
             return Outcome(failure("energy_increase", "propagation increased the total energy by a factor %.15g" % e ** 2), True, labels)
-        if not evan and abs(e - 1) > 1e-11 * TOLX:
+        if not evan and not (abs(e - 1) <= 1e-11 * TOLX):
             return Outcome(failure("energy_not_conserved", "no evanescent frequency but energy ratio %.15g" % e ** 2), True, labels)
         if not np.all(np.isfinite(vals(r))):
             return Outcome(failure("nonfinite", "propagated image not finite"), True, labels)
@@ -215,7 +215,7 @@ def run_prop(case):
                 return Outcome(failure("list_z_labels", "z coordinate %r does not contain distance %r" % (zs.tolist(), dd)), True, labels)
             got = vals(r)[idx[0]]
             err = nrm(got - single) / na
-            if err > 1e-12 * TOLX:
+            if not (err <= 1e-12 * TOLX):
                 return Outcome(failure("list_vs_single", "slice for d=%r of a list propagation differs from the single-distance result by %.3g" % (dd, err),
                                        has_zero=0.0 in ds), True, labels)
         if 0.0 in ds:
